@@ -360,6 +360,20 @@ Theorem C14_field_matcher_create_present :
 Proof. exact field_matcher_create_present. Qed.
 Print Assumptions C14_field_matcher_create_present.
 
+(* FieldMatcher{StringRegexValue}: the expression is searched (unanchored) in the Value of a scalar; anchored to a
+   literal it is Match(v); with a Name it plays no role *)
+Theorem C14_field_matcher_regex_anchored_literal :
+  forall (nonstr : string -> bool) (v : string) (x : node),
+    field_matcher_regex nonstr "" (Some (Regex.anchor (Regex.lit v))) x = fm_match nonstr v x.
+Proof. exact field_matcher_regex_anchored_literal. Qed.
+Print Assumptions C14_field_matcher_regex_anchored_literal.
+
+Theorem C14_field_matcher_regex_named :
+  forall (nonstr : string -> bool) (name : string) (r : option Regex.re) (x : node),
+    name <> "" -> field_matcher_regex nonstr name r x = fm_get nonstr name x.
+Proof. exact field_matcher_regex_named. Qed.
+Print Assumptions C14_field_matcher_regex_named.
+
 (* ---------- ElementSetter on a keyed list: lens laws ----------
    Hypotheses: one non-empty key k with a non-empty value v; [clean es]: the list has no null and no empty-mapping
    element (ElementSetter silently drops those, see C14_elem_setter_unclean_refuted); the element written
@@ -496,6 +510,77 @@ Theorem C14_lookup_pm_agree :
       end.
 Proof. exact MatchAgreeProofs.lookup_pm_agree. Qed.
 Print Assumptions C14_lookup_pm_agree.
+
+(* ... and beyond plain names: on paths of plain names, indices in range and selectors [fld=v] (fld non-empty) whose regular
+   expression is faithful to string equality on the list at hand and which at most one element answers to
+   ([MatchAgreeProofs.comm]), the two agree outcome by outcome ([MatchAgreeProofs.agree] = the three-way statement above) *)
+Theorem C14_lookup_pm_agree_full :
+  forall (parse : string -> option Regex.re) (enc : node -> string) (nonstr : string -> bool) (fuel : nat)
+         (path : list string) (n : node),
+    MatchAgreeProofs.comm parse enc path n ->
+    MatchAgreeProofs.agree (lookup (parse_path path) n) n (Match.pm parse enc nonstr None (S fuel) path n).
+Proof. exact MatchAgreeProofs.lookup_pm_agree2. Qed.
+Print Assumptions C14_lookup_pm_agree_full.
+
+(* The documented differences, exactly.  (1) an index out of range: no match for PathGetter, an error for PathMatcher *)
+Theorem C14_pm_diff_index_out_of_range :
+  forall (parse : string -> option Regex.re) (enc : node -> string) (nonstr : string -> bool) (fuel : nat)
+         (p : string) (i : nat) (rest : list string) (es : list node),
+    MatchAgreeProofs.index_part p i -> nth_error es i = None ->
+    Match.pm parse enc nonstr None (S fuel) (p :: rest) (Seq es) = Err /\
+    lookup (PIdx i :: parse_path rest) (Seq es) = Ok None.
+Proof. exact MatchAgreeProofs.pm_index_out_of_range. Qed.
+Print Assumptions C14_pm_diff_index_out_of_range.
+
+(* (2) an index on a null node: likewise *)
+Theorem C14_pm_diff_index_on_null :
+  forall (parse : string -> option Regex.re) (enc : node -> string) (nonstr : string -> bool) (fuel : nat)
+         (p : string) (i : nat) (rest : list string) (s : style) (v : string),
+    MatchAgreeProofs.index_part p i ->
+    Match.pm parse enc nonstr None (S fuel) (p :: rest) (Scalar TNull s v) = Err /\
+    lookup (PIdx i :: parse_path rest) (Scalar TNull s v) = Ok None.
+Proof. exact MatchAgreeProofs.pm_index_on_null. Qed.
+Print Assumptions C14_pm_diff_index_on_null.
+
+(* (3) with a faithful expression PathMatcher visits exactly the elements the selector [fld=v] answers to, ALL of them;
+   PathGetter takes the first *)
+Theorem C14_pm_selector_step :
+  forall (parse : string -> option Regex.re) (enc : node -> string) (nonstr : string -> bool) (fuel : nat)
+         (p fld v : string) (rest : list string) (es : list node),
+    MatchAgreeProofs.sel_part p fld v -> MatchAgreeProofs.sel_faithful parse enc fld v es ->
+    Match.pm parse enc nonstr None (S fuel) (p :: rest) (Seq es) =
+    (do r <- Match.visit_elems
+               (fun e => if sel_match fld v e then Match.pm parse enc nonstr None (S fuel) rest e else Ok (e, [])) 0 es;
+     Ok (Seq (fst r), snd r)).
+Proof. exact MatchAgreeProofs.pm_selector_step. Qed.
+Print Assumptions C14_pm_selector_step.
+
+Theorem C14_pm_diff_all_matches :
+  forall (parse : string -> option Regex.re) (enc : node -> string) (nonstr : string -> bool) (fuel : nat)
+         (p fld v : string) (e1 e2 : node),
+    MatchAgreeProofs.sel_part p fld v -> MatchAgreeProofs.sel_faithful parse enc fld v [e1; e2] ->
+    sel_match fld v e1 = true -> sel_match fld v e2 = true ->
+    Match.pm parse enc nonstr None (S fuel) [p] (Seq [e1; e2]) = Ok (Seq [e1; e2], [Match.HAt [0]; Match.HAt [1]]) /\
+    lookup [PSel fld v] (Seq [e1; e2]) = Ok (Some e1).
+Proof. exact MatchAgreeProofs.pm_selector_all_matches. Qed.
+Print Assumptions C14_pm_diff_all_matches.
+
+(* (4) PathGetter trims parts and drops empty ones; (5) "-" is the last element for PathGetter, a field name for
+   PathMatcher; (6) a primitive selector [=v] ends PathMatcher's walk, PathGetter walks on. Witnesses with the
+   expression "x" compiled to the literal x and the scalar text as encoder. *)
+Theorem C14_pm_diff_trim_dash_primitive :
+  let str s := Scalar TStr SPlain s in
+  let pmx := Match.pm (Regex.parse_of [("x", Some (Regex.lit "x"))]) node_value (fun _ => false) None 1 in
+  (lookup (parse_path [" a "; ""]) (Map [("a", str "v")]) = Ok (Some (str "v")) /\
+   pmx [" a "] (Map [("a", str "v")]) = Ok (Map [("a", str "v")], [])) /\
+  (lookup (parse_path ["-"]) (Map [("-", str "v")]) = Err /\
+   pmx ["-"] (Map [("-", str "v")]) = Ok (Map [("-", str "v")], [Match.HAt [0]]) /\
+   lookup (parse_path ["l"; "-"]) (Map [("l", Seq [str "p"; str "q"])]) = Ok (Some (str "q")) /\
+   pmx ["l"; "-"] (Map [("l", Seq [str "p"; str "q"])]) = Err) /\
+  (pmx ["[=x]"; "a"; "b"] (Seq [str "x"; str "y"]) = Ok (Seq [str "x"; str "y"], [Match.HAt [0]]) /\
+   lookup (parse_path ["[=x]"; "a"; "b"]) (Seq [str "x"; str "y"]) = Err).
+Proof. exact (conj MatchAgreeProofs.diff_trim (conj MatchAgreeProofs.diff_dash MatchAgreeProofs.diff_primitive_selector_ignores_rest)). Qed.
+Print Assumptions C14_pm_diff_trim_dash_primitive.
 
 (* the two models of utils.PathSplitter (Yaml/FieldSpec.v for "/", Yaml/Match.v for any one-byte delimiter) agree *)
 Theorem C14_path_splitter_agree :
